@@ -50,12 +50,17 @@ def _same(a, b):
     return _valid(land(a.re == b.re, a.im == b.im))
 
 
-@unit("C05", "System_R.reorder + Rvectors.reorder: matrices, centres, both shift sets and caches", scope="shape:3 Wannier functions, every permutation; 5 R-vectors; Ham and vector-valued AA", expect_min=5)
-def _reorder(U):
+def _reorder_unit(perms, tag, tiers):
+    @unit("C05", "System_R.reorder + Rvectors.reorder: matrices, centres, both shift sets and caches [%s]" % tag,
+          scope="shape:3 Wannier functions, permutations %s; 5 R-vectors; Ham, vector-valued AA and three more matrices" % (perms,), expect_min=5, tiers=tiers)
+    def _reorder(U):
+        return _reorder_body(U, perms)
+
+
+def _reorder_body(U, perms):
     NP, FFT, RV0, g = build_fft(U)
     RV = RV0
     reorder = U.fn(F_SR, "System_R.reorder", globs=dict(np=NP), model=False, rewrite_comps=False)
-    perms = list(itertools.permutations(range(NW)))
 
     def body():
         p = list(perms[ctx().choose(len(perms), "permutation")])
@@ -109,6 +114,10 @@ def _reorder(U):
                 cl.append(phsum_eq(new[idx], ref[key][(ik, p[a], p[b]) + idx[3:]]))
             U.ensure("(P2) %s: first k-derivative of the relabelled system = relabelled derivative of the original, at every k-point" % key, land(*cl))
     U.run(body, check_feasible=False)
+
+
+_reorder_unit([(1, 2, 0), (0, 2, 1), (2, 1, 0)], "a 3-cycle and two transpositions", ("quick", "thorough"))
+_reorder_unit([(0, 1, 2), (2, 0, 1), (1, 0, 2)], "identity, the other 3-cycle, the third transposition", ("thorough",))
 
 
 def _W():
